@@ -100,21 +100,31 @@ def lean_phase(pid, theorems, modules, tier="quick"):
             res["notes"].append("model driver does not build against the regenerated constants:\n" + tail(out, 30))
         rc, out = run(["lake", "build"] + modules, cwd=LEAN, timeout=7200)
         res["lake_s"] = round(time.time() - t0, 1)
+        built = list(modules)
         if rc != 0:
-            res["build_ok"] = False
-            res["notes"].append("lake build of property modules failed:\n" + tail(out, 60))
-        # audit: one #print axioms per theorem, each in its own small file batch so that one
-        # missing name does not hide the others
+            # which modules are broken?  a module that no longer builds takes only ITS theorems with it (a source fact about TBC
+            # must not fail the Vanilla obligations that happen to be audited by the same check)
+            built = []
+            for m in modules:
+                rc1, out1 = run(["lake", "build", m], cwd=LEAN, timeout=7200)
+                if rc1 == 0:
+                    built.append(m)
+                else:
+                    res["notes"].append("module %s no longer builds:\n%s" % (m, tail(out1, 25)))
+            res["broken_modules"] = [m for m in modules if m not in built]
+        # audit: #print axioms for every theorem, against the modules that build; a name that is not found (its module is
+        # broken, or it was removed) is simply not discharged
         os.makedirs(os.path.join(WORK, "audit"), exist_ok=True)
         af = os.path.join(WORK, "audit", pid + ".lean")
         with open(af, "w") as f:
-            for m in modules:
+            for m in built:
                 f.write("import %s\n" % m)
             f.write("open WowSrp\n")
             for t in theorems:
                 f.write("#print axioms %s\n" % t)
         rc, out = run(["lake", "env", "lean", af], cwd=LEAN, timeout=1800)
         res["audit_out"] = out
+        modules = built
         if tier == "thorough" and res["build_ok"]:
             # independent re-check of the compiled property modules by the toolchain's leanchecker
             t1 = time.time()
